@@ -243,6 +243,39 @@ func runC15(c *core.Ctx) core.Meta {
 		c.ReportAt("R15.3", u.Target.Fn(), u.Target.Instr.Pos(), "insert:guard", "a transaction is inserted on a path that did not find the buffer non-full (reached from "+core.FuncName(u.Top)+")")
 	}
 
+	// R15.3 (cont.): the capacity test is repeated for every insertion. A test
+	// hoisted out of the per-cycle loop guards only the first request: from an
+	// insertion no second insertion may be reachable, within one Tick, without
+	// passing the "not full" edge of a capacity test again.
+	if tick := c.SSAFunc(robPkg, "ReorderBuffer.Tick"); tick != nil {
+		capCut := AnyCut(CallFnCut(false, capPred), directCap)
+		g := core.BuildGraph(tick, 5, func(cal *ssa.Function) bool { return cal.Pkg == tick.Pkg })
+		inserts := g.NodesWhere(func(n *core.Node) bool {
+			return isListCall(n.Instr, "PushBack", "PushFront", "InsertBefore", "InsertAfter")
+		})
+		for _, ins := range inserts {
+			st3.Instances++
+			reach, okW := g.Reach(core.After(ins, nil), core.WalkOpts{CutEdge: capCut})
+			stale := false
+			for _, other := range inserts {
+				if reach[other] {
+					stale = true
+				}
+			}
+			st3.Ob(okW && !stale)
+			if !okW {
+				c.Undecided("R15.3", ins.Fn(), ins.Instr.Pos(), "insert:fresh-guard", "state cap reached")
+			} else if stale {
+				c.ReportAt("R15.3", ins.Fn(), ins.Instr.Pos(), "insert:stale-guard", "after this insertion another insertion is reachable in the same Tick without a new capacity test (the test sits outside the per-cycle loop): with more than one request per cycle the buffer holds up to numReqPerCycle-1 transactions more than its capacity")
+			}
+		}
+		if len(inserts) == 0 {
+			c.Report(core.Finding{Rule: "R15.3", Kind: "anchor", Pkg: robPkg, Func: "ReorderBuffer.Tick", Detail: "insert:fresh-guard", Msg: "no list insertion reachable from Tick"})
+		}
+	} else {
+		c.Report(core.Finding{Rule: "R15.3", Kind: "anchor", Pkg: robPkg, Func: "ReorderBuffer.Tick", Detail: "anchor", Msg: "ReorderBuffer.Tick not found"})
+	}
+
 	// R15.4 FIELDS
 	p.CheckFields("R15.4", []FieldSpec{
 		{Builder: "mem.ReadReqBuilder", MinSites: 1, SameBase: []string{"WithAddress", "WithByteSize", "WithPID"},
